@@ -82,7 +82,7 @@ theorem delete_current_promotes (bk : Bucket) (k : Key) (o : Obj) (cur last : Ve
     (hl : o.versions.getLast? = some last) :
     ∃ o', SMap.find (bk.rmVersion k cur.id).1.objects k = some o' ∧ o'.data = some last ∧
       o'.versions = o.versions.dropLast := by
-  simp only [Bucket.rmVersion, ho, hd, beq_self_eq_true, if_true, Obj.promote, hl]
+  simp only [Bucket.rmVersion, ho, hd, beq_self_eq_true, if_true, Obj.promote, hl, Bucket.storeObj]
   simp [SMap.find_insert_self]
 
 /-- suspending versioning does not touch any object -/
